@@ -114,6 +114,7 @@ func main() {
 	var accs []access
 	var calls []calledge
 	var names []string
+	root := "" // the function that starts the goroutine sharing the walk context
 	for n := range fns {
 		names = append(names, n)
 	}
@@ -236,7 +237,10 @@ func main() {
 			}
 			return true
 		}
-		inspectWithLocks(fd.Body, held, exprString, visit)
+		if goStmt != nil && root == "" {
+			root = name
+		}
+		inspectWithLocks(fd.Body, held, func(e ast.Expr) string { return strings.TrimPrefix(exprString(e), fi.wc+".") }, visit)
 	}
 	// print
 	var sb strings.Builder
@@ -255,6 +259,7 @@ func main() {
 	sb.WriteString("   Every read (AR) / write (AW) of a walkContext field, per function, with the region of the function body\n")
 	sb.WriteString("   (relative to its `go` statement and the following close(...)), the mutexes held, and the source line. *)\n")
 	sb.WriteString("From Coq Require Import List String.\nFrom Scalibr Require Import Sched.RaceModel.\nImport ListNotations.\nOpen Scope string_scope.\n\n")
+	sb.WriteString("(* the function whose `go` statement starts the second goroutine *)\nDefinition walk_root : string := " + q(root) + ".\n\n")
 	sb.WriteString("Definition walk_fields : list string :=\n  " + lst(fieldOrder) + ".\n\n")
 	sb.WriteString("Definition walk_accesses : list access :=\n  [ ")
 	var items []string
